@@ -261,7 +261,7 @@ def drv_narwhals(c, ctx, col):
     n = ctx["n"]
     formula = c.pick(ctx["formulas"])
     source = c.pick(["narwhals/pandas", "narwhals/arrow"])
-    output = c.pick(["pandas", "numpy", "sparse"])
+    output = c.pick(["pandas", "numpy", "sparse", "default"])  # default: the materializer's own output type (the native frame)
     a_null, A_null = pattern(c, n, 2), pattern(c, n, 2)
     if len(a_null) + len(A_null) > 2:
         raise Skip()
@@ -277,7 +277,7 @@ def drv_narwhals(c, ctx, col):
         formula, source, a_null, A_null, y_null, dropname, output, policy, index_kind)
     detail = {"formula": formula, "source": source, "a_null": a_null, "A_null": A_null, "y_null": y_null, "drop_rows": dropname,
               "output": output, "policy": policy}
-    opts = {"output": output}
+    opts = {"output": output} if output != "default" else {}
     if source == "narwhals/pandas":
         opts["materializer"] = "narwhals"
     if policy == "raise":
@@ -304,13 +304,16 @@ def drv_narwhals(c, ctx, col):
         return
     if not kept:
         return
-    want = model_matrix(formula, df.iloc[kept], na_action="ignore", output=output)
+    want = model_matrix(formula, df.iloc[kept], na_action="ignore", output=output if output != "default" else "pandas")
     for j, (g, w) in enumerate(zip(parts_of(got), parts_of(want))):
         G, W = dense(g), dense(w)
+        if source == "narwhals/arrow" and output == "default" and W.shape[1] == 0:
+            col.count("unspecified:arrow-table-without-columns-has-no-rows")
+            continue
         if G.shape != W.shape or not np.allclose(G, W, rtol=1e-12, atol=1e-12, equal_nan=True):
             col.violation(key, dict(detail, part=j, got=G.tolist(), want=W.tolist(), kept=kept), sig="narwhals:wrong-rows")
             return
-        if output == "pandas" and source == "narwhals/pandas" and list(g.index) != list(df.index[kept]):
+        if output in ("pandas", "default") and source == "narwhals/pandas" and list(g.index) != list(df.index[kept]):
             col.violation(key, dict(detail, part=j, index=list(g.index), expected_index=list(df.index[kept])), sig="narwhals:wrong-index")
             return
     if drop is not None and {int(i) for i in drop} != removed:
